@@ -602,4 +602,103 @@ def k7(ctx, kr):
     kr.exhaustive = True
     kr.outside = ['whole parts >= 1000 (range of time::Duration: C04-K2, K3a); fractions with more than %d digits' % max(fr)]
 
-KERNELS = [k3a, k2, k3b, k4, k5, k6, k7]
+
+# ---------------------------------------------------------------------------------------------- K8 direct addresses, component by component
+def _k8_job(job):
+    ndig, with_size = job; ncomp = len(ndig)
+    from . import C10 as K10
+    ctx = _CTX; part = Part()
+    pre = 'PROGRAM p\nVAR\n  v AT '; post = ' : BOOL;\nEND_VAR\nEND_PROGRAM\n'
+    P = ctx.program()
+    k_parse = P.find_fn('ironplc-parser', 'parse_program')
+    k_opt = [k for k in P.items if k[0] == 'ironplc-parser' and re.search(r'ParseOptions as (std::default::)?Default>::default|options::<impl at [^>]*>::default', k[1])]
+    LOC = P.enums.get('LocationPrefix'); SIZE = P.enums.get('SizePrefix')
+    if not LOC or not SIZE: part.inconc('LocationPrefix / SizePrefix not found'); return part
+    holder = {}; st = {}
+    M = Machine(P, stubs=K10.dyn_lexer_stubs(ctx, holder), max_steps=400_000_000)
+    def entry(M):
+        loc = M.fresh_bv('loc', 8); M.assume(z3.Or([loc == ord(c) for c in 'IQM']))
+        bs = [37, loc]
+        size = None
+        if with_size:
+            size = M.fresh_bv('size', 8); M.assume(z3.Or([size == ord(c) for c in 'XBWDL'])); bs.append(size)
+        ds = []
+        for i in range(ncomp):
+            if i: bs.append(46)
+            comp = []
+            for j in range(ndig[i]):
+                d = M.fresh_bv('d%d_%d' % (i, j), 8); M.assume(z3.And(z3.UGE(d, 48), z3.ULE(d, 57))); comp.append(d); bs.append(d)
+            v = z3.BitVecVal(0, 32)
+            for d in comp: v = v * 10 + z3.ZeroExt(24, d - 48)
+            ds.append(v)
+        st['bs'] = bs; st['loc'] = loc; st['size'] = size; st['ds'] = ds
+        text = list(pre.encode()) + bs + list(post.encode())
+        fid = Ref(Cell(Agg('FileId', [Str('f.st')])))
+        opts = Ref(Cell(M.call_fn(k_opt[0], []) if k_opt else Agg('ParseOptions', [False])))
+        r = M.call_fn(k_parse, [Ref(Cell(Str(text))), fid, opts])
+        if r.disc != 0: return None
+        nodes = K10.find_nodes(r.f[0], 'AddressAssignment')
+        return nodes[0] if nodes else 'no-node'
+    def on_path(M, pr):
+        part.paths += 1
+        if pr.inconclusive: part.inconc(pr.inconclusive); return
+        part.nontrivial += 1
+        s = z3.Solver(); s.add(*pr.pc)
+        def lit(m): return bytes(x if isinstance(x, int) else m.eval(x, True).as_long() for x in st['bs']).decode()
+        def report(role, what, cond):
+            s.push(); s.add(cond); part.queries += 1
+            if s.check() == z3.sat:
+                L = lit(s.model()); part.add(role, 'direct address %s: %s' % (L, what), {'literal': L, 'source': pre + L + post}, ('address_value', (L,)))
+            s.pop()
+        if pr.panic: report('C09/K8/panic', 'the parser panics: ' + pr.panic.msg[:50], z3.BoolVal(True)); return
+        node = pr.result
+        if node is None: report('C09/K8/rejected', 'a well-formed direct address is rejected', z3.BoolVal(True)); return
+        if node == 'no-node': part.inconc('no AddressAssignment node in the library'); return
+        locv, sizev, addr = node.f[0], node.f[1], node.f[2]
+        ld = locv.disc; sd = sizev.disc
+        want_loc = z3.BitVecVal(0, 8)
+        for nm in 'IQM': want_loc = z3.If(st['loc'] == ord(nm), z3.BitVecVal(LOC.index(nm), 8), want_loc)
+        report('C09/K8/location-altered', 'is read with another location prefix', tobv(ld, 8) != want_loc if is_sym(ld) else z3.BitVecVal(ld, 8) != want_loc)
+        if with_size:
+            want_size = z3.BitVecVal(0, 8)
+            for nm in 'XBWDL': want_size = z3.If(st['size'] == ord(nm), z3.BitVecVal(SIZE.index(nm), 8), want_size)
+        else: want_size = z3.BitVecVal(SIZE.index('Nil'), 8)
+        report('C09/K8/size-altered', 'is read with another size prefix', (tobv(sd, 8) if is_sym(sd) else z3.BitVecVal(sd, 8)) != want_size)
+        items = addr.items if isinstance(addr, VecV) else None
+        if items is None or len(items) != ncomp: report('C09/K8/components-altered', 'is read with %s components instead of %d' % (len(items) if items is not None else '?', ncomp), z3.BoolVal(True)); return
+        report('C09/K8/components-altered', 'is read with other component values', z3.Or([tobv(c, 32) != d for c, d in zip(items, st['ds'])]))
+        if len(part.validate) < 1 and not part.findings and s.check() == z3.sat: part.validate.append(('address_value', (lit(s.model()),)))
+        if len(part.samples) < 1: part.samples.append({'digits_per_component': list(ndig), 'size_prefix': with_size})
+    M.explore(entry, on_path)
+    part.queries += M.stats['smt']; part.encoded = set(M.encoded); part.models = set(M.models_used)
+    return part
+
+@replay_factory('address_value')
+def _replay_address_value(L):
+    def rp(ctx):
+        src = 'PROGRAM p\nVAR\n  v AT %s : BOOL;\nEND_VAR\nEND_PROGRAM\n' % L
+        r = ctx.replay({'cmd': 'render', 'source': src})
+        if 'panic' in r: return True, r
+        if not r.get('ok'): return True, {'literal': L, 'rejected': str(r.get('diag'))[:160]}
+        # AddressAssignment's Debug omits the components: read them from the rendered text
+        m = re.search(r'AT\s+(%\S+)', r.get('text', ''))
+        def norm(a):
+            mm = re.fullmatch(r'%([IQM])([XBWDL]?)([0-9.]+)', a)
+            return (mm.group(1), mm.group(2), [int(x) for x in mm.group(3).split('.')]) if mm else None
+        return (m is None or norm(m.group(1)) != norm(L)), {'literal': L, 'rendered': m.group(1) if m else None}
+    return rp
+
+@kernel('K8 parser.direct_addresses')
+def k8(ctx, kr):
+    global _CTX
+    _CTX = ctx
+    shapes = [(1,), (2,), (1, 1), (1, 2), (2, 1), (1, 1, 1), (1, 1, 2), (3, 2)]
+    kr.bounds = 'direct addresses %%<I|Q|M>[X|B|W|D|L] followed by components of %s symbolic digits, separated by dots, with symbolic prefix letters, in a located variable declaration, through parse_program (lexer lifted on the symbolic text): location, size and the value of every component as written' % shapes
+    for part in par_map(_k8_job, [(sh, ws) for sh in shapes for ws in (True, False)]): merge_part(kr, part)
+    P = ctx.program()
+    kr.functions = fn_paths(P, getattr(kr, '_enc', set()))[:100] + ['ironplc-parser::<TokenType as Logos>::lex (lifted)']
+    kr.assumptions = ['regex::Regex by contract (as C04-K4)']
+    kr.exhaustive = True
+    kr.outside = ['components of more than three digits (range of u32: C04-K4); lower-case prefixes']
+
+KERNELS = [k3a, k2, k3b, k4, k5, k6, k7, k8]
